@@ -72,7 +72,12 @@ func VerifC09NoLostUpdate() {
 		return &RollingHDRHistogram{}, nil
 	})
 	verifStub("(*github.com/vulcand/oxy/v2/memmetrics.RollingHDRHistogram).RecordLatencies", func(h *RollingHDRHistogram, d time.Duration, n int64) error { return nil })
-	m, err := NewRTMetrics()
+	// the counter builder is user-supplied code (RTCounter option): a recorder may be held up
+	// inside it while another recorder runs
+	m, err := NewRTMetrics(RTCounter(func() (*RollingCounter, error) {
+		verifYield()
+		return NewCounter(counterBuckets, counterResolution)
+	}))
 	verifAssert("metrics-ok", err == nil)
 	m.Record(200, time.Millisecond)
 	codeA := []int{200, 502, 404}[verifConcretize(verifInt("codeA"), 0, 2)]
